@@ -61,7 +61,12 @@ impl FlagConverter {
         // first of all we need to make sure that each &Val is only a primitive type.
         for v in def.iter() {
             let vref = v.as_ref();
-            if vref.is_list() || vref.is_tuple() {
+            // Anything write_simple_value has no form for: the flag name must
+            // not be written for it either.
+            if vref.is_list()
+                || vref.is_tuple()
+                || matches!(vref, Val::Constraint(_) | Val::Env(_))
+            {
                 eprintln!(
                     "Skipping non primitive val in list for flag {}{}",
                     pfx, name
